@@ -15,6 +15,19 @@ import (
 // origin of every harness timeline: far from the wall clock and from the zero time, no monotonic reading.
 var origin = time.Unix(1_000_000_000, 0).UTC()
 
+// timeAt turns an offset from org into the instant presented to the code.  The two extreme offsets stand for instants
+// MORE than the representable distance away (time.Time.Sub saturates at exactly these values): a date seven centuries
+// after, resp. six centuries before, the start.
+func timeAt(org time.Time, d int64) time.Time {
+	switch d {
+	case math.MaxInt64:
+		return time.Date(org.Year()+700, 1, 1, 0, 0, 0, 0, time.UTC)
+	case math.MinInt64:
+		return time.Date(org.Year()-600, 1, 1, 0, 0, 0, 0, time.UTC)
+	}
+	return org.Add(time.Duration(d))
+}
+
 type rcSuite struct{}
 
 func init() { register("rc", rcSuite{}) }
@@ -52,7 +65,10 @@ func (g *timeGen) next(r *rand.Rand) (int64, string) {
 	default:
 		d, tag = g.cur-(n+r.Int63n(3*n+1))*w, "stale"
 	}
-	if g.cur > math.MaxInt64/2 && d < 0 && tag != "before-start" {
+	if r.Intn(60) == 0 {
+		d, tag = []int64{math.MaxInt64, math.MinInt64}[r.Intn(2)], "beyond-representable-distance"
+	}
+	if g.cur > math.MaxInt64/2 && d < 0 && tag != "before-start" && tag != "beyond-representable-distance" {
 		d = math.MaxInt64 // the offset arithmetic wrapped around: present the largest offset instead
 	}
 	if d > g.cur {
@@ -145,7 +161,7 @@ func (rcSuite) Run(h map[string]string, ops []string) []string {
 				}
 			}()
 			f := strings.Fields(op)
-			at := func() time.Time { return origin.Add(time.Duration(atoi(f[1]))) }
+			at := func() time.Time { return timeAt(origin, atoi(f[1])) }
 			switch f[0] {
 			case "inc":
 				c.Inc(at())
